@@ -10,6 +10,8 @@ RULE = ('cases = generated G-SEL spec with 1-3 incompatibility pairs (on start, 
         'feasible finals = R-SEL set (nothing admissible lost, nothing inadmissible kept), initial graph infeasible only if '
         'R-SEL is empty; non-trivial = at least one assignment is rejected by an incompatibility and at least one is '
         'admissible; distinct by sha1(spec)')
+FUZZ_MODULES = ['adsg_core.graph.traversal', 'adsg_core.graph.choices', 'adsg_core.graph.incompatibility', 'adsg_core.graph.influence_matrix']   # thorough tier: atheris campaign over these modules (vf/fuzz.py)
+FUZZ_RUNS = 4000
 BUDGET = {'quick': 600, 'thorough': 10000}
 
 
